@@ -107,15 +107,16 @@ def maxLevel (a : KAuto) : Nat :=
 
 /-- `within`: completions of the typed word `p` inside the word expression: from the point reached
 after the longest readable part `m` of `p`, the items of the first level that has one extending the
-rest.  Returns the candidates, the calls, and whether the decomposition was unique. -/
-def within (W : World) (a : KAuto) (p : String) : List String × List Call × Bool :=
+rest.  Returns the candidates, the calls made while reading `p`, the calls made to collect candidates,
+and whether the decomposition was unique. -/
+def within (W : World) (a : KAuto) (p : String) : List String × List Call × List Call × Bool :=
   let w := p.toList
   let (reach, calls0) := subAll W a w
   let best := reach.foldl (fun m x => max m x.2) 0
   let pts := reach.filter fun x => x.2 == best
   let unique := pts.length ≤ 1
   match pts.head? with
-  | none => ([], calls0, unique)
+  | none => ([], calls0, [], unique)
   | some (q, pos) =>
     let m := String.ofList (w.take pos)
     let r := String.ofList (w.drop pos)
@@ -132,8 +133,8 @@ def within (W : World) (a : KAuto) (p : String) : List String × List Call × Bo
             else (acc, calls)
           | _ => (acc, calls)
         if !cands.isEmpty then (cands, calls) else levels fuel (j + 1) calls
-    let (cands, calls) := levels (maxLevel a + 1) 0 calls0
-    (cands, calls, unique)
+    let (cands, calls) := levels (maxLevel a + 1) 0 []
+    (cands, calls0, calls, unique)
 
 /-! ### between words -/
 
@@ -189,31 +190,32 @@ def readWord (W : World) (q : Nat) (w : String) : ReadResult :=
   if !lenW.isEmpty then ⟨rest.1, sameTarget lenW, calls, cmdPoint⟩
   else ⟨rest.1, rest.1, rest.2, cmdPoint⟩
 
-/-- candidates offered at state `q` for the typed prefix `p` -/
-def offer (W : World) (q : Nat) (p : String) : List String × List Call × Bool :=
+/-- candidates offered at state `q` for the typed prefix `p`; the calls that collecting them requires;
+the further calls reading `p` inside word expressions may make; uniqueness of the decompositions -/
+def offer (W : World) (q : Nat) (p : String) : List String × List Call × List Call × Bool :=
   let ts := trans W.main q
-  let rec levels : Nat → Nat → List Call → Bool → List String × List Call × Bool
-    | 0, _, calls, u => ([], calls, u)
-    | fuel + 1, k, calls, u =>
-      let (cands, calls, u) := ts.foldl (init := ([], calls, u)) fun (acc, calls, u) (it, _) =>
+  let rec levels : Nat → Nat → List Call → List Call → Bool → List String × List Call × List Call × Bool
+    | 0, _, calls, extra, u => ([], calls, extra, u)
+    | fuel + 1, k, calls, extra, u =>
+      let (cands, calls, extra, u) := ts.foldl (init := ([], calls, extra, u)) fun (acc, calls, extra, u) (it, _) =>
         match it with
-        | .lit t l => if l == k && isPrefix p (t ++ " ") then (addNew acc (t ++ " "), calls, u) else (acc, calls, u)
+        | .lit t l => if l == k && isPrefix p (t ++ " ") then (addNew acc (t ++ " "), calls, extra, u) else (acc, calls, extra, u)
         | .word key l =>
           if l == k then
             match subOf W key with
             | some a =>
-              let (cs, calls', uq) := within W a p
-              (cs.foldl addNew acc, calls'.foldl addNew calls, u && uq)
-            | none => (acc, calls, u)
-          else (acc, calls, u)
+              let (cs, reading, collecting, uq) := within W a p
+              (cs.foldl addNew acc, collecting.foldl addNew calls, reading.foldl addNew extra, u && uq)
+            | none => (acc, calls, extra, u)
+          else (acc, calls, extra, u)
         | .cmd c l =>
           if l == k then
             let calls := addNew calls ⟨c, p, ""⟩
-            ((W.fields c).foldl (fun acc f => if isPrefix p f then addNew acc f else acc) acc, calls, u)
-          else (acc, calls, u)
-        | .any => (acc, calls, u)
-      if !cands.isEmpty then (cands, calls, u) else levels fuel (k + 1) calls u
-  levels (maxLevel W.main + 1) 0 [] true
+            ((W.fields c).foldl (fun acc f => if isPrefix p f then addNew acc f else acc) acc, calls, extra, u)
+          else (acc, calls, extra, u)
+        | .any => (acc, calls, extra, u)
+      if !cands.isEmpty then (cands, calls, extra, u) else levels fuel (k + 1) calls extra u
+  levels (maxLevel W.main + 1) 0 [] [] true
 
 /-- bash's stripping: the part of `p` up to and including its last COMP_WORDBREAKS character -/
 def superfluous (p wb : String) : String :=
@@ -237,10 +239,10 @@ structure Answer where
   lenientWord : Option (Option (List String))
   lenientLast : Option (Option (List String))
 
-def finish (W : World) (q : Nat) (p wb : String) : List String × List Call × Bool :=
-  let (cands, calls, u) := offer W q p
+def finish (W : World) (q : Nat) (p wb : String) : List String × List Call × List Call × Bool :=
+  let (cands, calls, extra, u) := offer W q p
   let pre := superfluous p wb
-  (cands.map (strip pre), calls, u)
+  (cands.map (strip pre), calls, extra, u)
 
 /-- walk the complete words; `mode` 0 = strict, 1 = lenient about unfinished words -/
 def walk (W : World) (mode : Nat) : List String → Nat → List Call → Bool → Option Nat × List Call × Bool × Option Nat
@@ -261,8 +263,9 @@ def complete (W : World) (ws : List String) (p wb : String) : Answer :=
   let strictRes := q0.map fun q => finish W q p wb
   let strict := strictRes.map (·.1)
   let required := (strictRes.map (·.2.1)).getD []
-  let ambiguous := amb0 || (strictRes.map (!·.2.2)).getD false
+  let ambiguous := amb0 || (strictRes.map (!·.2.2.2)).getD false
   let allowed := required.foldl addNew calls0
+  let allowed := ((strictRes.map (·.2.2.1)).getD []).foldl addNew allowed
   let (q1, calls1, amb1, lastFail1) := walk W 1 ws W.main.start [] false
   let lenientWord : Option (Option (List String)) :=
     if q1 == q0 then none else some (q1.map fun q => (finish W q p wb).1)
@@ -274,10 +277,10 @@ def complete (W : World) (ws : List String) (p wb : String) : Answer :=
     | none => none
   let allowed := calls1.foldl addNew allowed
   let allowed := match q1 with
-    | some q => (finish W q p wb).2.1.foldl addNew allowed
+    | some q => let f := finish W q p wb; f.2.2.1.foldl addNew (f.2.1.foldl addNew allowed)
     | none => allowed
   let allowed := match lf with
-    | some q => (finish W q p wb).2.1.foldl addNew allowed
+    | some q => let f := finish W q p wb; f.2.2.1.foldl addNew (f.2.1.foldl addNew allowed)
     | none => allowed
   { strict, ambiguous := ambiguous || amb1, required, allowed, lenientWord, lenientLast }
 
